@@ -46,6 +46,21 @@ pub fn probe_error(args: &[BytecodePrimitive]) -> FFIReturnValue {
     FFIReturnValue::FFIError(format!("probe failure with {} argument(s)", args.len()))
 }
 
+/// Raises an error whose message is made of the string arguments (so a caller chooses its text,
+/// line breaks included): `says <s0|s1|...>`.
+#[no_mangle]
+pub fn probe_error_text(args: &[BytecodePrimitive]) -> FFIReturnValue {
+    show("probe_error_text", args);
+    let parts: Vec<&str> = args
+        .iter()
+        .filter_map(|a| match a {
+            BytecodePrimitive::Str(s) => Some(s.as_str()),
+            _ => None,
+        })
+        .collect();
+    FFIReturnValue::FFIError(format!("says <{}>", parts.join("|")))
+}
+
 #[cfg(not(feature = "second"))]
 #[no_mangle]
 pub fn probe_only_in_first(args: &[BytecodePrimitive]) -> FFIReturnValue {
